@@ -99,12 +99,53 @@ def _r11_commit_is_checked(ctx, M):
     ctx.floor("R11", "transactions in the lease store", n, 1)
 
 
+def _success_targets(body, T, cfg, call_bb):
+    """blocks entered on the Continue edge of `?` applied to the result of the call ending `call_bb` (empty when the result
+    is not tested that way)"""
+    out = []
+    for bb, tm in body.terms():
+        if tm["k"] != "switch":
+            continue
+        d = norm(T.at_term(tm["discr"], bb))
+        if d[0] == "discr":
+            inner = d[1]
+            calls = [s for s in subterms(inner) if s[0] == "call" and len(s) > 3 and s[3] == call_bb]
+            if calls and any(s[0] == "call" and str(s[1]).endswith("::branch") for s in subterms(inner)):
+                out.extend(t for _, t in discr_edges(cfg, bb, 0))
+    return out
+
+
+def _r12_explicit_transactions_closed(ctx, M):
+    """A transaction opened in SQL text (BEGIN, SAVEPOINT) has no guard object: nothing ends it when the function returns early.
+    Every exit of the function after a successful open, the error exits of `?` included, must pass COMMIT / RELEASE / ROLLBACK;
+    otherwise every later statement on the connection runs inside the abandoned transaction and is never committed."""
+    P = ctx.P
+    OPEN, CLOSE = ("begin", "savepoint"), ("commit", "release", "rollback")
+    for o in M.sites:
+        if not o.stmt or o.stmt["kind"] not in OPEN:
+            continue
+        b = o.body
+        ctx.saw(b)
+        cfg = cfg_of(b)
+        T = terms(P, b)
+        closers = tuple(c.bb for c in M.sites if c.body.id == b.id and c.stmt and c.stmt["kind"] in CLOSE)
+        starts = _success_targets(b, T, cfg, o.bb) or list(cfg.succ[o.bb])
+        rets = set(cfg.return_blocks())
+        leak = sorted({r for st in starts for r in ({st} | set(cfg.reachable_from(st, blocked=closers))) if r in rets and st not in closers})
+        ctx.check(not leak, "R12", "explicit-transaction-closed-on-every-exit:%s:%s" % (o.stmt["kind"], b.id.split("::")[-1]),
+                  ctx.where(b, o.term["sp"]),
+                  "%s opens a transaction that only COMMIT / RELEASE / ROLLBACK ends; %d exit(s) of the function are reachable after "
+                  "it without passing one (%d closing statement(s) in the function), so later leases on this connection stay uncommitted"
+                  % (o.stmt["text"][:40], len(leak), len(closers)))
+
+
 def run(ctx):
     P = ctx.P
     cg = callgraph(P)
     M = PoolModel(P, cg)
     _r10_migrated_columns(ctx, M)
     _r11_commit_is_checked(ctx, M)
+    _r12_explicit_transactions_closed(ctx, M)
     inserts = [s for s in M.lease_sql() if s.stmt["kind"] == "insert"]
     ctx.floor("R1", "lease write", len(inserts), 1)
     if len(inserts) == 1:
